@@ -376,6 +376,7 @@ func (r *report) finish(doReplay bool) int {
 	for _, l := range lines {
 		fmt.Println(l)
 	}
+	fmt.Printf("  solver io: send %.1fs, get-value %.1fs\n", r.solver.SendTime.Seconds(), r.solver.ValueTime.Seconds())
 	fmt.Printf("  solver: %d fallbacks, max query %.1fs, %d restarts, %d protocol errors\n", r.solver.Fallbacks, r.solver.MaxQuery.Seconds(), r.solver.Restarts, r.solver.Errors)
 	fmt.Printf("%s %s: %d harnesses, %d paths, %d queries (%d unknown), solver %.1fs, validated %d traces, wall %.1fs, exit %d\n",
 		r.ID, r.Tier, len(r.jobs), ev.Coverage["states"], r.solver.Queries, r.solver.Unknown, r.solver.Time.Seconds(), validated, time.Since(r.start).Seconds(), exit)
